@@ -89,7 +89,7 @@ Definition scase_ok (c : scase) : bool := N.eqb (scase_diag c) 0.
 
 (* client role: one blocked call (id given), one live subscription with channel id 5 (element type int) *)
 Record ccase := { cc_frames : list (list int); cc_block_id : list int; cc_vals : list Z; cc_open : bool;
-                  cc_crashed : bool; cc_probe : bool }.
+                  cc_crashed : bool; cc_probe : bool; cc_has_handler : bool }.
 
 Fixpoint client_run (t : tables) (fs : list bytes) (vals : list Z) : option (tables * list Z) :=
   match fs with
@@ -111,7 +111,7 @@ Fixpoint zlist_eqb (a b : list Z) : bool :=
 
 Definition ccase_diag (c : ccase) : N :=
   let t0 := {| t_inflight := match parse (unpack (cc_block_id c)) with Some j => [j] | None => [] end;
-               t_handling := []; t_sinks := [5%Z]; t_has_handler := true |} in
+               t_handling := []; t_sinks := [5%Z]; t_has_handler := cc_has_handler c |} in
   match client_run t0 (map unpack (cc_frames c)) [] with
   | None => if cc_crashed c then 0 else 1
   | Some (t, vals) =>
